@@ -773,7 +773,7 @@ def shrink(c):
     if c["kind"] not in ("pty", "fast") or c.get("op") == "raw":
         return c
     cur = c
-    for _ in range(10):
+    for it in range(10):
         cands = shrink_candidates(cur)
         if not cands:
             break
@@ -785,6 +785,8 @@ def shrink(c):
         if nxt is None or errors:
             break
         cur = nxt
+        if -2 in bits and it >= 2:  # every blocked candidate costs the full cap
+            break
     return cur
 
 
@@ -826,7 +828,8 @@ def sig_of(c):
 
 def what_of(c, v, rec):
     if v == -2:
-        return "the query function did not return (blocked > %.0f s): %s" % (P.HARD_CAP, describe(c))
+        return ("the query function did not return (blocked: more than %.0f s with a query timeout of %.1f s): %s"
+                % (P.call_cap(T_SLOW), T_SLOW, describe(c)))
     parts = []
     if v & 2:
         parts.append("reported values / unread bytes differ from what the terminal said")
